@@ -407,3 +407,127 @@ func VerifC07_Map() {
 		vrt.Assert(g1.IsErrNotFound(), "C07.map.getbypath.absent")
 	}
 }
+
+func init() { vrt.Register("VerifC07_GetMany", VerifC07_GetMany) }
+
+// VerifC07_GetMany: message{int32 p=1; repeated int32 xs=2 [packed]; repeated string ss=3; map<string,int32> m=4;
+// string s=5}: the batch lookups GetMany -> Fields / Indexes / Gets return, for every requested path, the
+// element the single lookups return, and leave absent ones unset.
+func VerifC07_GetMany() {
+	cnt := vrt.Param("CNT")
+	msg := proto.VerifNewMessage("M")
+	proto.VerifAddField(msg, 1, "p", "p", proto.VerifBasic(proto.INT32), false)
+	proto.VerifAddField(msg, 2, "xs", "xs", proto.VerifBasic(proto.INT32), true)
+	proto.VerifAddField(msg, 3, "ss", "ss", proto.VerifBasic(proto.STRING), true)
+	proto.VerifAddMap(msg, 4, "m", "m", proto.VerifBasic(proto.STRING), proto.VerifBasic(proto.INT32))
+	proto.VerifAddField(msg, 5, "s", "s", proto.VerifBasic(proto.STRING), false)
+	proto.VerifBuild(msg)
+	opts := &Options{ClearDirtyValues: true}
+	var b []byte
+	hasP := vrt.Bool()
+	pv := verifNewScalar(proto.INT32, 0)
+	if hasP {
+		b = verifAppendValue(gpw.AppendTag(b, 1, gpw.VarintType), pv)
+	}
+	xs := make([]verifScalar, cnt)
+	ss := make([]verifScalar, cnt)
+	mk := make([][]byte, cnt)
+	mv := make([]verifScalar, cnt)
+	var packed []byte
+	for i := 0; i < cnt; i++ {
+		xs[i] = verifNewScalar(proto.INT32, 0)
+		if i > 0 {
+			verifNarrow(xs[i])
+		}
+		packed = verifAppendValue(packed, xs[i])
+	}
+	if cnt > 0 {
+		b = gpw.AppendBytes(gpw.AppendTag(b, 2, gpw.BytesType), packed)
+	}
+	for i := 0; i < cnt; i++ {
+		ss[i] = verifNewScalar(proto.STRING, 1)
+		b = verifAppendValue(gpw.AppendTag(b, 3, gpw.BytesType), ss[i])
+	}
+	for i := 0; i < cnt; i++ {
+		mk[i] = []byte{'k', byte('0' + i)}
+		mv[i] = verifNewScalar(proto.INT32, 0)
+		verifNarrow(mv[i])
+		var e []byte
+		e = gpw.AppendBytes(gpw.AppendTag(e, 1, gpw.BytesType), mk[i])
+		e = verifAppendValue(gpw.AppendTag(e, 2, gpw.VarintType), mv[i])
+		b = gpw.AppendBytes(gpw.AppendTag(b, 4, gpw.BytesType), e)
+	}
+	sv := verifNewScalar(proto.STRING, 1)
+	b = verifAppendValue(gpw.AppendTag(b, 5, gpw.BytesType), sv)
+	root := NewRootValue(msg, b)
+
+	// fields: p (maybe absent), s, an undeclared-but-absent number is not requested (GetMany needs declared fields)
+	stale := NewNodeString("stale")
+	fs := []PathNode{{Path: NewPathFieldId(1), Node: stale}, {Path: NewPathFieldId(5), Node: stale}}
+	err := root.GetMany(fs, opts)
+	vrt.Assert(err == nil, "C07.getmany.fields.noerror")
+	if err == nil {
+		if hasP {
+			verifCheckScalar(fs[0].Node, pv, "C07.getmany.fields.present")
+		} else {
+			vrt.Assert(fs[0].Node.IsUnKnown() || fs[0].Node.IsError(), "C07.getmany.fields.absent-unset")
+		}
+		verifCheckScalar(fs[1].Node, sv, "C07.getmany.fields.last")
+	}
+	if cnt == 0 {
+		vrt.Reach("empty")
+		return
+	}
+	vrt.Reach("nonempty")
+	// list elements: first, last, one past the end
+	for li, fn := range []proto.FieldNumber{2, 3} {
+		lst := root.GetByPath(NewPathFieldId(fn))
+		vrt.Assert(!lst.IsError(), "C07.getmany.list.noerror")
+		if lst.IsError() {
+			continue
+		}
+		// (no duplicate requests: with one element the "last" request is the next-to-last index -1, out of range)
+		is := []PathNode{{Path: NewPathIndex(0), Node: stale}, {Path: NewPathIndex(cnt - 1), Node: stale}, {Path: NewPathIndex(cnt), Node: stale}}
+		if cnt == 1 {
+			is[1].Path = NewPathIndex(7)
+		}
+		err = lst.GetMany(is, opts)
+		model := xs
+		lab := "C07.getmany.indexes.packed"
+		if li == 1 {
+			model, lab = ss, "C07.getmany.indexes.unpacked"
+		}
+		if err != nil {
+			// an out-of-range index may make the whole batch fail; the in-range ones alone must succeed
+			is = is[:2]
+			err = lst.GetMany(is, opts)
+		} else {
+			vrt.Assert(is[2].Node.IsUnKnown() || is[2].Node.IsError(), lab+".pastend-unset")
+		}
+		vrt.Assert(err == nil, lab+".noerror")
+		if err == nil {
+			verifCheckScalar(is[0].Node, model[0], lab+".first")
+			if cnt > 1 {
+				verifCheckScalar(is[1].Node, model[cnt-1], lab+".last")
+			}
+		}
+	}
+	// map entries: first key, last key, absent key
+	mp := root.GetByPath(NewPathFieldId(4))
+	vrt.Assert(!mp.IsError(), "C07.getmany.map.noerror")
+	if !mp.IsError() {
+		ks := []PathNode{{Path: NewPathStrKey(string(mk[0])), Node: stale}, {Path: NewPathStrKey(string(mk[cnt-1])), Node: stale}, {Path: NewPathStrKey("zz"), Node: stale}}
+		if cnt == 1 {
+			ks[1].Path = NewPathStrKey("yy")
+		}
+		err = mp.GetMany(ks, opts)
+		vrt.Assert(err == nil, "C07.getmany.keys.noerror")
+		if err == nil {
+			verifCheckScalar(ks[0].Node, mv[0], "C07.getmany.keys.first")
+			if cnt > 1 {
+				verifCheckScalar(ks[1].Node, mv[cnt-1], "C07.getmany.keys.last")
+			}
+			vrt.Assert(ks[2].Node.IsUnKnown() || ks[2].Node.IsError(), "C07.getmany.keys.absent-unset")
+		}
+	}
+}
